@@ -474,7 +474,7 @@ where
         1 => text::unicode::ident().map(slice_val::<I::Slice>).boxed(),
         2 => text::int(10).map(slice_val::<I::Slice>).boxed(),
         3 => text::int(16).map(slice_val::<I::Slice>).boxed(),
-        4 => text::digits(10).to_slice().map(slice_val::<I::Slice>).boxed(),
+        4 => text::digits(36).to_slice().map(slice_val::<I::Slice>).boxed(),
         5 => text::whitespace().at_least(1).count().map(|n: usize| Val::Num(n as u64)).boxed(),
         6 => text::inline_whitespace().at_least(1).to_slice().map(slice_val::<I::Slice>).boxed(),
         7 => match newline {
